@@ -3,6 +3,8 @@
 Explorer H: BFS over append histories.  Every transition re-creates the dataset
 from the initial write and replays the history with the real API, re-opening
 from disk for every step; invariants are evaluated after the last step.
+A second, small lattice replays depth-2 histories on ONE ParquetFile handle
+(write_row_groups) and compares what that handle serves with a fresh open.
 """
 import hashlib
 
@@ -10,26 +12,88 @@ ID = "C07"
 LEVEL = "model_checking"
 FLAVOUR = "plain"
 TIMEOUT = 300
-RULE = ("initial states = file_scheme {simple, hive, drill} x partition_on {none, [p]} x written index {no, yes}; "
-        "operation alphabet = 6 schema-compatible frames (3 rows, 1 row, 0 rows, with nulls, categorical with new "
-        "labels, categorical with a subset of labels) x row_group_offsets {None, 1} x compression {None, SNAPPY}; "
+RULE = ("narrow schema = a int64, s text (nullable), c categorical(str), p int64; wide schema = narrow + q text, f float64 "
+        "(NaN), t datetime64[ns, Europe/Paris] (NaT), b bool, i Int64 (NA); "
+        "initial states with the full alphabet (narrow schema) = file_scheme {simple, hive, drill} x partition_on {none, "
+        "[p]} x written index {no, int64 'idx'}, initial write of 4 rows in 2 row groups; "
+        "initial states with the small alphabet: narrow schema, layouts {hive with 10 one-row part files, two foreign-named "
+        "files gathered with merge(), one file of 2 row groups gathered with merge(), empty simple file, empty hive "
+        "dataset}; wide schema, {hive partition_on [p, q] x written index {no, 'idx'}} + index kinds {default RangeIndex "
+        "(write_index=None), unnamed non-range index, 2-level MultiIndex with new level values in every batch and c as "
+        "text} x {simple, hive [p]} (thorough: also hive unpartitioned); "
+        "operation alphabet (full) = 6 schema-compatible frames (3 rows, 1 row, 0 rows, with nulls, categorical "
+        "with new labels, categorical with a subset of labels) x row_group_offsets {None, 1} x compression {None, SNAPPY} "
+        "+ uncompressed specials {categorical with 128 labels; and, only as the last operation of a history: columns in "
+        "reverse order, 3 rows with offsets [0,1], 3 rows with offsets [0,3] (empty last chunk), 0 rows with offsets [0]}; "
+        "quick: 29 operations at level 1, the 12 uncompressed base operations + the 128-label frame at level 2; thorough: "
+        "29 at levels 1-2, 24 + the 128-label frame at level 3; "
+        "small alphabet = 7 frames (6 + 128 labels) x row_group_offsets {None, 1} uncompressed at level 1, x {None} at "
+        "level 2 (quick; depth 1 only for the default-range and unnamed index kinds); thorough: the full 29 at level 1, "
+        "14 at level 2, 7 at level 3; "
         "BFS to depth 2 (quick) / 3 (thorough), states hashed by the bytes of every file of the dataset; every "
         "transition = fastparquet.write(..., append=True) on the real dataset followed by a fresh open; "
-        "invariants: content == concatenation of the model frames (block by block), bytes before the old footer "
-        "unchanged (single file), every pre-existing data file byte-identical and new files freshly named (multi-file)")
+        "invariants: content == concatenation of the model frames (block by block, written index included - as part of "
+        "the row when partitioned), column dtypes == those served for the initial dataset, count() and "
+        "FileMetaData.num_rows == model, bytes before the old footer unchanged (single file), every pre-existing data "
+        "file byte-identical, new files freshly named, data files on disk == files referenced by _metadata, every new "
+        "part file read on its own == its row groups in the dataset, _common_metadata schema and pandas metadata == "
+        "_metadata (multi-file); "
+        "same-handle lattice (narrow schema) = {simple, hive, hive [p]} x 7 frames x 7 frames appended through one "
+        "ParquetFile.write_row_groups handle whose statistics / categories / to_pandas were used before: after every "
+        "step rows, dtypes, count, num_rows, number of row groups and statistics served by that handle == those of a "
+        "fresh open")
 ASSUMPTIONS = ["within one append to a partitioned dataset row order is not compared (rows are regrouped by partition)",
-               "categorical cells compared by label"]
+               "categorical cells compared by label",
+               "the index of a dataset written without an index column (write_index=False or default RangeIndex) is "
+               "not compared; index names are not compared",
+               "the model rows are the canonical cells of the frames handed to fastparquet.write (pandas trusted)"]
 
 FRAMES = ["three", "one", "zero", "nulls", "cat_new", "cat_subset"]
+SMALL_FRAMES = FRAMES + ["cat_wide"]
+COLS = ("a", "s", "c", "p", "q", "f", "t", "b", "i")        # wide schema
+NARROW = COLS[:4]
+WIDE = ["L%03d" % i for i in range(126)] + ["u", "v"]          # 128 labels: one more than int8 codes can address
 
 
-def initial_states():
+def initial_states(tier="quick"):
     out = []
     for scheme in ("simple", "hive", "drill"):
         for part in ((False, True) if scheme != "simple" else (False,)):
             for widx in (False, True):
                 out.append({"scheme": scheme, "part": part, "widx": widx})
+    # ---- small-alphabet states
+    out.append({"scheme": "hive", "part": False, "widx": False, "layout": "hive10"})
+    out.append({"scheme": "hive", "part": False, "widx": False, "layout": "merged"})
+    out.append({"scheme": "hive", "part": False, "widx": False, "layout": "merged_rg"})
+    out.append({"scheme": "simple", "part": False, "widx": False, "layout": "empty"})
+    out.append({"scheme": "hive", "part": False, "widx": False, "layout": "empty"})
+    # ---- small-alphabet states on the wide schema
+    out.append({"scheme": "hive", "part": "pq", "widx": False, "wide": True})
+    out.append({"scheme": "hive", "part": "pq", "widx": True, "wide": True})
+    for widx in ("range", "unnamed", "multi"):
+        out.append({"scheme": "simple", "part": False, "widx": widx, "wide": True})
+        out.append({"scheme": "hive", "part": True, "widx": widx, "wide": True})
+        if tier == "thorough":
+            out.append({"scheme": "hive", "part": False, "widx": widx, "wide": True})
     return out
+
+
+def small(init):
+    """initial states explored with the small operation alphabet"""
+    return bool(init.get("layout")) or bool(init.get("wide"))
+
+
+def max_depth(init, tier):
+    if tier == "thorough":
+        return 3
+    # quick: the default-range and unnamed index kinds only differ from the named index in how the appended frame
+    # is reshaped: one append shows it
+    return 1 if init["widx"] in ("range", "unnamed") else 2
+
+
+def final_only(op):
+    """operations that only end a history (their successors are those of the plain 3-row / 1-row / 0-row append)"""
+    return isinstance(op["rgo"], list) or op["frame"] == "permuted"
 
 
 def operations():
@@ -41,12 +105,34 @@ def operations():
     return ops
 
 
+def special_operations():
+    return [{"frame": "cat_wide", "rgo": None, "comp": None},
+            {"frame": "permuted", "rgo": None, "comp": None},
+            {"frame": "three", "rgo": [0, 1], "comp": None},
+            {"frame": "three", "rgo": [0, 3], "comp": None},       # the last chunk is empty
+            {"frame": "zero", "rgo": [0], "comp": None}]           # the only chunk is empty
+
+
+def alphabet(init, level, tier):
+    """operations applicable at BFS level `level` (1 = first append)"""
+    if small(init):
+        if tier == "thorough" and level == 1:
+            return operations() + special_operations()
+        rgos = (None, 1) if level == 1 or (tier == "thorough" and level == 2) else (None,)
+        return [{"frame": f, "rgo": r, "comp": None} for f in SMALL_FRAMES for r in rgos]
+    if level == 1 or (tier == "thorough" and level == 2):
+        return operations() + special_operations()
+    if tier == "thorough":
+        return operations() + special_operations()[:1]
+    # deeper levels of the quick tier: the uncompressed base alphabet and the wide categorical
+    return [o for o in operations() if not o["comp"]] + special_operations()[:1]
+
+
 def explore(run, tier):
     depth = 3 if tier == "thorough" else 2
     seen = {}
     st = {"states": 0, "transitions": 0}
-    ops = operations()
-    initial = [{"init": s, "hist": []} for s in initial_states()]
+    initial = [{"init": s, "hist": []} for s in initial_states(tier)]
 
     def on_result(point, res, submit):
         if res.get("outcome") in ("crash", "timeout", "harness_error"):
@@ -56,6 +142,8 @@ def explore(run, tier):
         key = res.get("state")
         if key is None or not res.get("ok"):
             return
+        if point["hist"] and final_only(point["hist"][-1]):
+            return          # ends its history; not entered into `seen`: the same bytes reached by a plain append expand
         k = (repr(sorted(point["init"].items())), key)
         dep = len(point["hist"])
         if k in seen and seen[k] <= dep:
@@ -63,14 +151,16 @@ def explore(run, tier):
         if k not in seen:
             st["states"] += 1
         seen[k] = dep
-        if dep >= depth:
+        if dep >= max_depth(point["init"], tier):
             return
-        for op in ops:
-            # deeper levels of the quick tier use the uncompressed alphabet only
-            if tier != "thorough" and len(point["hist"]) >= 1 and op["comp"]:
-                continue
+        for op in alphabet(point["init"], dep + 1, tier):
             submit({"init": point["init"], "hist": point["hist"] + [op]})
     run.dynamic("append-histories", initial, "run", on_result)
+    handle_points = [{"init": {"scheme": s, "part": p, "widx": False},
+                      "hist": [{"frame": f1, "rgo": None, "comp": None}, {"frame": f2, "rgo": None, "comp": None}]}
+                     for s, p in (("simple", False), ("hive", False), ("hive", True))
+                     for f1 in SMALL_FRAMES for f2 in SMALL_FRAMES]
+    run.lattice("same-handle", handle_points, "run_handle")
     run.extra.update({"states": st["states"], "transitions": st["transitions"],
                       "traces_validated_against_impl": st["transitions"], "depth": depth})
 
@@ -79,29 +169,73 @@ def crash_sig(point, res):
     s = dict(point["init"])
     s["symptom"] = res["outcome"]
     s["frames"] = ",".join(o["frame"] for o in point["hist"])
-    s["cat_sets_differ"] = any(o["frame"] in ("cat_new", "cat_subset") for o in point["hist"])
+    s["cat_sets_differ"] = any(o["frame"] in ("cat_new", "cat_subset", "cat_wide") for o in point["hist"])
     return s
 
 
 # ---------------------------------------------------------------------------------------
-def frame(name, widx, base_id):
-    """schema: a int64, s object (nullable text), c categorical(str), p int64 partition key"""
-    import pandas as pd
-    rows = {"three": [(1, "x", "u", 1), (2, "y", "v", 2), (3, "z", "u", 1)],
-            "one": [(4, "w", "v", 2)],
+_T0 = 1_600_000_000_123_456_789          # ns since the epoch (UTC), with a sub-microsecond part
+
+
+def _rows(name):
+    """(a, s, c, p, q, f, t, b, i): t in days after _T0 (None = NaT)"""
+    if name == "initial10":
+        return [(-i, "i%d" % i, "uv"[i % 2], 1 + i % 2, "xy"[i % 2], i / 4.0, i, i % 3 == 0, i) for i in range(10)]
+    return {"three": [(1, "x", "u", 1, "x", 1.5, 10, True, 1), (2, "y", "v", 2, "y", None, 11, False, None),
+                      (3, "z", "u", 1, "x", -0.25, None, True, 3)],
+            "one": [(4, "w", "v", 2, "y", 4.0, 12, False, 4)],
             "zero": [],
-            "nulls": [(5, None, "u", 1), (6, "q", None, 2)],
-            "cat_new": [(7, "n", "NEW", 1), (8, "m", "u", 3)],
-            "cat_subset": [(9, "k", "v", 2), (10, "j", "v", 2)],
-            "initial": [(0, "i0", "u", 1), (-1, "i1", "v", 2), (-2, None, "u", 1), (-3, "i3", "v", 1)]}[name]
-    cats = {"cat_new": ["NEW", "u"], "cat_subset": ["v"]}.get(name, ["u", "v"])
-    df = pd.DataFrame({"a": pd.Series([r[0] for r in rows], dtype="int64"),
-                       "s": pd.Series([r[1] for r in rows], dtype=object),
-                       "c": pd.Categorical([r[2] for r in rows], categories=cats),
-                       "p": pd.Series([r[3] for r in rows], dtype="int64")})
-    if widx:
-        df.index = pd.Index([base_id + i for i in range(len(rows))], name="idx", dtype="int64")
-    return df, rows
+            "nulls": [(5, None, "u", 1, "y", None, None, True, None), (6, "q", None, 2, "x", 6.5, 13, False, 6)],
+            "cat_new": [(7, "n", "NEW", 1, "x", 7.5, 14, True, 7), (8, "m", "u", 3, "z", 8.5, 15, False, 8)],
+            "cat_subset": [(9, "k", "v", 2, "y", 9.5, 16, True, 9), (10, "j", "v", 2, "y", 10.5, 17, True, 10)],
+            "cat_wide": [(11, "g", "L000", 1, "x", 11.5, 18, False, 11), (12, "h", "u", 2, "y", 12.5, 19, True, 12)],
+            "permuted": [(13, "e", "v", 2, "x", 13.5, 20, True, 13), (14, None, "u", 1, "y", None, None, False, None)],
+            "initial": [(0, "i0", "u", 1, "x", 0.5, 0, True, 0), (-1, "i1", "v", 2, "y", None, 1, False, None),
+                        (-2, None, "u", 1, "y", -2.5, None, True, -2), (-3, "i3", "v", 1, "x", 1e300, 3, False, 2 ** 40)],
+            "empty": []}[name]
+
+
+def frame(name, widx, base_id, wide=False):
+    """-> (DataFrame, model rows as canonical cells (a, s, c, p[, q, f, t, b, i]), model index cells or None)"""
+    import numpy as np
+    import pandas as pd
+    from mc import oracles as O
+    rows = _rows(name)
+    cats = {"cat_new": ["NEW", "u"], "cat_subset": ["v"], "cat_wide": WIDE}.get(name, ["u", "v"])
+    data = {"a": pd.Series([r[0] for r in rows], dtype="int64"),
+            "s": pd.Series([r[1] for r in rows], dtype=object),
+            "c": pd.Categorical([r[2] for r in rows], categories=cats),
+            "p": pd.Series([r[3] for r in rows], dtype="int64")}
+    if wide:
+        nat = np.iinfo("int64").min
+        t = np.array([nat if r[6] is None else _T0 + r[6] * 86_400_000_000_000 for r in rows], dtype="int64")
+        data.update({"q": pd.Series([r[4] for r in rows], dtype=object),
+                     "f": pd.Series([np.nan if r[5] is None else r[5] for r in rows], dtype="float64"),
+                     "t": pd.Series(t.view("M8[ns]")).dt.tz_localize("UTC").dt.tz_convert("Europe/Paris"),
+                     "b": pd.Series([r[7] for r in rows], dtype="bool"),
+                     "i": pd.Series(pd.array([r[8] for r in rows], dtype="Int64"))})
+    df = pd.DataFrame(data)
+    cols = COLS if wide else NARROW
+    model = list(zip(*[O.series_to_list(df[c]) for c in cols])) if rows else []
+    if name == "permuted":
+        df = df[list(reversed(cols))]
+    idx = None
+    n = len(rows)
+    if widx is True:
+        df.index = pd.Index([base_id + i for i in range(n)], name="idx", dtype="int64")
+        idx = [(base_id + i,) for i in range(n)]
+    elif widx == "unnamed":
+        df.index = pd.Index([base_id + 2 * i for i in range(n)], dtype="int64")
+        idx = [(base_id + 2 * i,) for i in range(n)]
+    elif widx == "multi":
+        # (a categorical data column next to a MultiIndex does not survive a plain write/read in this library -
+        # the levels are never set, no append needed: not this property's business - so c is plain text here)
+        df["c"] = df["c"].astype(object)
+        k2 = ["m%d" % ((base_id // 100 + i) % 3) for i in range(n)]     # later batches bring new level values
+        df.index = pd.MultiIndex.from_arrays([pd.Index([base_id + i for i in range(n)], dtype="int64"),
+                                              pd.Index(k2, dtype=object)], names=["k1", "k2"])
+        idx = [(base_id + i, k2[i]) for i in range(n)]
+    return df, model, idx
 
 
 def snapshot(path):
@@ -112,25 +246,90 @@ def snapshot(path):
     return out
 
 
-def read_rows(path, widx):
-    import fastparquet
+def rows_of(df, nidx=0, wide=False):
+    """canonical rows (a, s, c, p[, q, f, t, b, i]) of a frame read from a dataset, and its index cells"""
     from mc import oracles as O
-    pf = fastparquet.ParquetFile(path)
-    df = pf.to_pandas()
     cols = {c: O.series_to_list(df[c]) for c in df.columns}
     n = len(df)
-    pcol = "p" if "p" in cols else ("dir0" if "dir0" in cols else None)
-    rows = []
-    for i in range(n):
-        p = cols[pcol][i] if pcol else None
-        if isinstance(p, str):
-            try:
-                p = int(p)
-            except ValueError:
-                pass
-        rows.append((cols["a"][i], cols["s"][i], cols["c"][i], p))
-    idx = O.series_to_list(df.index.to_series()) if widx else None
-    return rows, idx, pf
+    if "p" not in cols and "dir0" in cols:
+        cols["p"] = cols["dir0"]
+    for pc in ("p",):
+        if pc in cols:
+            fixed = []
+            for p in cols[pc]:
+                if isinstance(p, str):
+                    try:
+                        p = int(p)
+                    except ValueError:
+                        pass
+                fixed.append(p)
+            cols[pc] = fixed
+    rows = [tuple(cols[c][i] if c in cols else None for c in (COLS if wide else NARROW)) for i in range(n)]
+    idx = None
+    if nidx == 1:
+        idx = [(x,) for x in O.series_to_list(df.index.to_series())]
+    elif nidx > 1:
+        idx = [tuple(O.canon_cell(x) for x in tup) for tup in df.index.tolist()]
+    return rows, idx
+
+
+def read_rows(path, widx, wide=False):
+    import fastparquet
+    pf = fastparquet.ParquetFile(path)
+    df = pf.to_pandas()
+    nidx = {False: 0, "range": 0, True: 1, "unnamed": 1, "multi": 2}[widx]
+    if nidx and df.index.nlevels != nidx:
+        raise ValueError("the index read has %d level(s), written with %d" % (df.index.nlevels, nidx))
+    rows, idx = rows_of(df, nidx, wide)
+    return rows, idx, pf, df
+
+
+def dtypes_of(df):
+    from mc import oracles as O
+    return {str(c): O.dtype_kind(df[c].dtype) for c in df.columns}
+
+
+def initial_write(path, init):
+    """create the initial dataset -> (model rows, model index or None)"""
+    import os
+    import fastparquet
+    scheme, part, widx, layout = init["scheme"], init["part"], init["widx"], init.get("layout")
+    name = {"hive10": "initial10", "empty": "empty"}.get(layout, "initial")
+    df0, rows0, idx0 = frame(name, widx, 100, init.get("wide", False))
+    kw = {"file_scheme": scheme}
+    if part:
+        kw["partition_on"] = ["p", "q"] if part == "pq" else ["p"]
+    if widx is False:
+        kw["write_index"] = False
+    # widx True / unnamed / multi: a non-range index is written by default; "range": the default for a RangeIndex
+    if layout in ("merged", "merged_rg"):
+        from fastparquet import writer
+        os.makedirs(path)
+        if layout == "merged":
+            files = [os.path.join(path, "a.parquet"), os.path.join(path, "data-0.parquet")]
+            fastparquet.write(files[0], df0.iloc[:2], write_index=False)
+            fastparquet.write(files[1], df0.iloc[2:], write_index=False)
+        else:
+            files = [os.path.join(path, "part.5.parquet")]
+            fastparquet.write(files[0], df0, row_group_offsets=[0, 2], write_index=False)
+        writer.merge(files)
+    elif layout == "hive10":
+        fastparquet.write(path, df0, row_group_offsets=1, **kw)
+    elif layout == "empty":
+        fastparquet.write(path, df0, **kw)
+    else:
+        fastparquet.write(path, df0, row_group_offsets=[0, 2], **kw)
+    return rows0, idx0
+
+
+def append_kwargs(init, op):
+    akw = {"file_scheme": init["scheme"], "append": True, "row_group_offsets": op["rgo"], "compression": op["comp"]}
+    if init["part"]:
+        akw["partition_on"] = ["p", "q"] if init["part"] == "pq" else ["p"]
+    return akw
+
+
+_DT0 = {}
 
 
 def run(point):
@@ -140,6 +339,8 @@ def run(point):
     from mc.scratch import scratch
     init, hist = point["init"], point["hist"]
     scheme, part, widx = init["scheme"], init["part"], init["widx"]
+    wide = init.get("wide", False)
+    cols = COLS if wide else NARROW
     d = scratch()
     path = os.path.join(d, "t.parquet" if scheme == "simple" else "ds")
     sig = dict(init)
@@ -150,19 +351,22 @@ def run(point):
         s.update(extra)
         return {"ok": False, "outcome": symptom, "nontrivial": True, "sig": s, "detail": detail}
 
-    df0, rows0 = frame("initial", widx, 100)
-    kw = {"file_scheme": scheme}
-    if part:
-        kw["partition_on"] = ["p"]
-    if not widx:
-        kw["write_index"] = False
-    fastparquet.write(path, df0, row_group_offsets=[0, 2], **kw)
+    rows0, idx0 = initial_write(path, init)
     blocks = [rows0]
-    idx_model = list(df0.index) if widx else None
+    idx_blocks = [idx0]
+    dt0 = _DT0.get(repr(sorted(init.items())))
+    if dt0 is None:
+        # dtypes served for the initial dataset (a function of the initial state only: once per worker process)
+        try:
+            dt0 = dtypes_of(fastparquet.ParquetFile(path).to_pandas())
+        except Exception as e:
+            return bad("read_raised", "initial dataset: %s: %s" % (type(e).__name__, str(e)[:150]),
+                       exc=type(e).__name__, frame="initial", depth=0)
+        _DT0[repr(sorted(init.items()))] = dt0
     before = None
     old_footer_start = None
     for i, op in enumerate(hist):
-        dfi, rowsi = frame(op["frame"], widx, 200 + 100 * i)
+        dfi, rowsi, idxi = frame(op["frame"], widx, 200 + 100 * i, wide)
         last = i == len(hist) - 1
         if last:
             before = snapshot(path)
@@ -171,11 +375,10 @@ def run(point):
                 old_footer_start = len(data) - 8 - struct.unpack("<I", data[-8:-4])[0]
                 before_bytes = data
         sig_step = {"frame": op["frame"], "depth": len(hist)}
+        if isinstance(op["rgo"], list):
+            sig_step["rgo"] = "list"
         try:
-            akw = {"file_scheme": scheme, "append": True, "row_group_offsets": op["rgo"], "compression": op["comp"]}
-            if part:
-                akw["partition_on"] = ["p"]
-            fastparquet.write(path, dfi, **akw)
+            fastparquet.write(path, dfi, **append_kwargs(init, op))
         except Exception as e:
             if scheme == "drill" and part and "existing file scheme is not" in str(e):
                 # appending to a drill-partitioned dataset is refused by the library: a refusal is not a
@@ -184,47 +387,58 @@ def run(point):
             return bad("append_raised", "append %d (%s) raised %s: %s" % (i, op, type(e).__name__, str(e)[:150]),
                        exc=type(e).__name__, **sig_step)
         blocks.append(rowsi)
-        if widx:
-            idx_model += list(dfi.index)
+        idx_blocks.append(idxi)
     # ---- invariants after the last step
     sig_step = {"frame": hist[-1]["frame"] if hist else "initial", "depth": len(hist)}
+    if hist and isinstance(hist[-1]["rgo"], list):
+        sig_step["rgo"] = "list"
+    names = [o["frame"] for o in hist]
+    has_cat_change = any(o["frame"] in ("cat_new", "cat_subset", "cat_wide") for o in hist)
     try:
-        got, idx, pf = read_rows(path, widx)
+        got, idx, pf, df = read_rows(path, widx, wide)
     except Exception as e:
-        return bad("read_raised", "after %r: %s: %s" % ([o["frame"] for o in hist], type(e).__name__, str(e)[:150]),
-                   exc=type(e).__name__, **sig_step)
-    exp_blocks = blocks
-    if part:
-        exp_blocks = [[r for r in b] for b in blocks]
-    else:
-        # without partitioning p is an ordinary column
-        pass
-    total = sum(len(b) for b in exp_blocks)
+        return bad("read_raised", "after %r: %s: %s" % (names, type(e).__name__, str(e)[:150]),
+                   exc=type(e).__name__, cat_sets_differ=has_cat_change, **sig_step)
+    total = sum(len(b) for b in blocks)
     if len(got) != total:
-        return bad("wrong_rowcount", "after %r: %d rows read, model has %d" % ([o["frame"] for o in hist], len(got), total), **sig_step)
+        return bad("wrong_rowcount", "after %r: %d rows read, model has %d" % (names, len(got), total), **sig_step)
+    with_idx = idx is not None
     pos = 0
-    catkinds = {"cat_new", "cat_subset"}
-    for bi, b in enumerate(exp_blocks):
+    for bi, b in enumerate(blocks):
         part_rows = got[pos:pos + len(b)]
+        want, have = list(b), list(part_rows)
+        if with_idx and part:
+            # within a partitioned append the rows are regrouped: the index travels with its row
+            want = [r + ("idx",) + x for r, x in zip(want, idx_blocks[bi])]
+            have = [r + ("idx",) + x for r, x in zip(have, idx[pos:pos + len(b)])]
         pos += len(b)
-        want = sorted(b, key=repr) if part else list(b)
-        have = sorted(part_rows, key=repr) if part else list(part_rows)
+        if part:
+            want, have = sorted(want, key=repr), sorted(have, key=repr)
         if have != want:
             # which column differs?
             col = None
             for x, y in zip(have, want):
-                for ci, cn in enumerate(("a", "s", "c", "p")):
-                    if x[ci] != y[ci]:
+                for ci, cn in enumerate(cols + ("idx", "idx", "idx")):
+                    if ci < len(x) and x[ci] != y[ci]:
                         col = cn
                         break
                 if col:
                     break
-            has_cat_change = any(o["frame"] in catkinds for o in hist)
-            return bad("wrong_content", "after %r: block %d reads %r, model %r" % ([o["frame"] for o in hist], bi, have, want),
+            return bad("wrong_content", "after %r: block %d reads %r, model %r" % (names, bi, have, want),
                        col=col, cat_sets_differ=has_cat_change, **sig_step)
-    if widx and idx is not None and not part:
-        if list(idx) != list(idx_model):
+    if with_idx and not part:
+        idx_model = [x for ib in idx_blocks for x in ib]
+        if list(idx) != idx_model:
             return bad("wrong_index", "index %r, model %r" % (idx, idx_model), **sig_step)
+    # ---- dtypes as served for the initial dataset, row counts of the metadata
+    dt1 = dtypes_of(df)
+    if dt1 != dt0:
+        diff = sorted(c for c in set(dt0) | set(dt1) if dt0.get(c) != dt1.get(c))
+        return bad("dtype_changed", "after %r: %s" % (names, ", ".join(
+            "%s %r -> %r" % (c, dt0.get(c), dt1.get(c)) for c in diff)), col=diff[0], **sig_step)
+    if pf.count() != total or pf.fmd.num_rows != total:
+        return bad("wrong_num_rows", "after %r: count() %r, FileMetaData.num_rows %r, model %d" % (
+            names, pf.count(), pf.fmd.num_rows, total), **sig_step)
     if hist:
         after = snapshot(path)
         if scheme == "simple":
@@ -242,8 +456,46 @@ def run(point):
                     return bad("existing_file_rewritten", "data file %s was rewritten by the append" % f[len(path):], **sig_step)
             # every referenced file exists, each data file referenced
             refs = [rg.columns[0].file_path for rg in pf.row_groups]
-            if len(set(refs)) != len(refs):
+            new_refs = [r for r in refs if os.path.join(path, r) not in before]
+            # (the merged_rg layout starts from one file holding two row groups: there only the new files count)
+            uniq = new_refs if init.get("layout") == "merged_rg" else refs
+            if len(set(uniq)) != len(uniq):
                 return bad("duplicate_reference", "_metadata references a file twice: %r" % refs, **sig_step)
+            on_disk = sorted(f[len(path) + 1:] for f in after
+                             if os.path.basename(f) not in ("_metadata", "_common_metadata"))
+            if on_disk != sorted(set(refs)):
+                return bad("unreferenced_file", "data files on disk %r, referenced by _metadata %r" % (
+                    on_disk, sorted(set(refs))), **sig_step)
+            # every new part file is a complete parquet file holding its slice of the dataset
+            starts, acc = [], 0
+            for rg in pf.row_groups:
+                starts.append(acc)
+                acc += rg.num_rows
+            for ref in sorted(set(new_refs)):
+                want = []
+                for rg, s0 in zip(pf.row_groups, starts):
+                    if rg.columns[0].file_path == ref:
+                        want += got[s0:s0 + rg.num_rows]
+                try:
+                    alone, _ = rows_of(fastparquet.ParquetFile(os.path.join(path, ref)).to_pandas(), 0, wide)
+                except Exception as e:
+                    return bad("part_file_unreadable", "new file %s on its own: %s: %s" % (
+                        ref, type(e).__name__, str(e)[:150]), exc=type(e).__name__, **sig_step)
+                keep = [ci for ci, cn in enumerate(cols) if not (part and (cn == "p" or (part == "pq" and cn == "q")))]
+                if [tuple(r[ci] for ci in keep) for r in alone] != [tuple(r[ci] for ci in keep) for r in want]:
+                    return bad("part_file_differs", "new file %s on its own reads %r, its row groups in the dataset %r" % (
+                        ref, alone, want), **sig_step)
+            # _common_metadata describes the same table as _metadata
+            try:
+                cm = fastparquet.ParquetFile(os.path.join(path, "_common_metadata"))
+                sch = lambda p: [(se.name, se.type, se.converted_type, se.repetition_type, se.num_children)
+                                 for se in p.fmd.schema]
+                if sch(cm) != sch(pf) or cm.pandas_metadata != pf.pandas_metadata:
+                    return bad("common_metadata_differs", "_common_metadata: schema %r pandas %r; _metadata: schema %r "
+                               "pandas %r" % (sch(cm), cm.pandas_metadata, sch(pf), pf.pandas_metadata), **sig_step)
+            except Exception as e:
+                return bad("common_metadata_unreadable", "%s: %s" % (type(e).__name__, str(e)[:150]),
+                           exc=type(e).__name__, **sig_step)
     h = hashlib.sha256()
     for f, hh in sorted(snapshot(path).items()):
         h.update(f[len(path):].encode() + hh.encode())
@@ -251,10 +503,71 @@ def run(point):
             "counts": {"appends": len(hist)}}
 
 
+def run_handle(point):
+    """the ParquetFile that performs the appends (write_row_groups) serves the same as a fresh open"""
+    import json
+    import os
+    import fastparquet
+    from mc.scratch import scratch
+    init, hist = point["init"], point["hist"]
+    scheme = init["scheme"]
+    d = scratch()
+    path = os.path.join(d, "t.parquet" if scheme == "simple" else "ds")
+    sig = dict(init)
+    sig["handle"] = "same"
+
+    def bad(symptom, detail, **extra):
+        s = dict(sig)
+        s["symptom"] = symptom
+        s.update(extra)
+        return {"ok": False, "outcome": symptom, "nontrivial": True, "sig": s, "detail": detail}
+
+    def view(pf):
+        df = pf.to_pandas()
+        rows, _ = rows_of(df)
+        return {"rows": rows, "count": pf.count(), "row_groups": len(pf.row_groups), "num_rows": pf.fmd.num_rows,
+                "statistics": json.dumps(pf.statistics, sort_keys=True, default=str),
+                "dtypes": dtypes_of(df)}
+
+    initial_write(path, init)
+    pf = fastparquet.ParquetFile(path)
+    view(pf)                    # fills every lazily computed attribute of the handle
+    pf.categories
+    for i, op in enumerate(hist):
+        dfi, _, _ = frame(op["frame"], False, 0)
+        sig_step = {"frame": op["frame"], "depth": i + 1}
+        try:
+            pf.write_row_groups(dfi, row_group_offsets=op["rgo"], compression=op["comp"])
+        except Exception as e:
+            return bad("append_raised", "write_row_groups %d (%s) raised %s: %s" % (i, op, type(e).__name__, str(e)[:150]),
+                       exc=type(e).__name__, **sig_step)
+        try:
+            fresh = view(fastparquet.ParquetFile(path))
+        except Exception as e:
+            return bad("read_raised", "fresh open after %r: %s: %s" % (hist[:i + 1], type(e).__name__, str(e)[:150]),
+                       exc=type(e).__name__, **sig_step)
+        try:
+            same = view(pf)
+        except Exception as e:
+            return bad("handle_read_raised", "the appending handle after %r: %s: %s" % (
+                hist[:i + 1], type(e).__name__, str(e)[:150]), exc=type(e).__name__, **sig_step)
+        for k in ("rows", "count", "row_groups", "num_rows", "dtypes", "statistics"):
+            if same[k] != fresh[k]:
+                return bad("handle_stale", "after %r the appending handle serves %s = %s, a fresh open %s" % (
+                    [o["frame"] for o in hist[:i + 1]], k, str(same[k])[:200], str(fresh[k])[:200]),
+                    what=k, **sig_step)
+    return {"ok": True, "outcome": "consistent", "nontrivial": True, "counts": {"appends": len(hist)}}
+
+
 LEVEL_TEXT = ("Explicit-state BFS over append histories (depth 2 quick / 3 thorough) from ten initial dataset layouts with "
-              "an alphabet of 24 append operations; each transition runs the real append on the real files and the "
-              "state is re-opened from disk; content is compared with a list-of-frames model and the bytes / files "
-              "that existed before the last append are compared before and after.")
-LEVEL_NOTE = ("Trusted: list model; sha256 of files as state identity (exact). Histories are replayed from the initial "
-              "write for every transition, so no state leaks between executions.")
-TECHNIQUE = "explicit-state BFS over append histories on the real dataset, list-of-frames reference model, byte-level before/after comparison"
+              "an alphabet of 29 append operations (24 base + 128-label categorical, reversed column order, explicit offset "
+              "lists with empty chunks) and from 13 (thorough: 16) further layouts (10 part files, merge()-gathered "
+              "foreign files, empty datasets, two partition levels and default / unnamed / multi-level index on a "
+              "9-column schema with float, tz-aware datetime, bool and nullable int) with an alphabet of 14; each "
+              "transition runs the real append on the real files and the state is re-opened from disk; content, index "
+              "and dtypes are compared with a list-of-frames model, the bytes / files that existed before the last "
+              "append are compared before and after, new part files are read on their own, and 147 depth-2 histories "
+              "are replayed through a single ParquetFile handle whose view is compared with a fresh open.")
+LEVEL_NOTE = ("Trusted: list model (canonical cells of the input frames); sha256 of files as state identity (exact). "
+              "Histories are replayed from the initial write for every transition, so no state leaks between executions.")
+TECHNIQUE = "explicit-state BFS over append histories on the real dataset, list-of-frames reference model, byte-level before/after comparison, same-handle vs fresh-open comparison"
